@@ -95,6 +95,8 @@ class Driver(object):
                     disp.add_listener(_spawn["ev"], child, _spawn["prio"])
                 if _stops:
                     event.stop_propagation()
+                # what a listener returns means nothing to the dispatcher (only Event.stop_propagation stops the chain)
+                return (None, False, True, 0, "stop")[_lid % 5]
 
             self.listeners.append(listener)
             if self.via:
